@@ -1187,6 +1187,7 @@ def __lshift__(self, other, start_pos=None):
             insert_pos = self.a_fiber.getShape(all_ranks=False, authoritative=True)
             insert_start_pos = None
 
+            b_positions = self.b_fiber.iterPositions()
             for b_pos, (b_coord, b_payload) in enumerate(b):
                 # Error check the starting position
                 assert b_pos > 0 or a_pos == 0 \
@@ -1207,7 +1208,7 @@ def __lshift__(self, other, start_pos=None):
 
                     # Read the B coordinate
                     if b_traced:
-                        Metrics.addUse(rank, b_coord, b_pos, type_=b_trace)
+                        Metrics.addUse(rank, b_coord, next(b_positions), type_=b_trace)
 
                     # If we are inserting into a compressed fiber, we need
                     # to search for the coordinate
